@@ -207,7 +207,7 @@ pub fn ext_pool() -> Vec<Ext> {
         Ext::Alpn(vec![s("h2"), s("http/1.1")]),
         Ext::SupVer(vec![0x0a0a, 0x0304, 0x0303]),
         Ext::SigAlgs(vec![0x0403, 0x1a1a, 0x0804, 0x0401]),
-        Ext::Groups(vec![0x2a2a, 29, 23]),
+        Ext::Groups(vec![0x2a2a, 29, 0x0a1a, 23]),
         Ext::PointFormats(vec![0]),
         Ext::Other(5, vec![1, 0, 0, 0, 0]),
         Ext::Other(23, vec![]),
